@@ -278,7 +278,7 @@ class CaseCtx:
         return False
 
 
-def _stdout_writes(prog: Program, root: ast.AST):
+def _stdout_writes(prog: Program, root: ast.AST, _seen: frozenset = frozenset()):
     """Calls that write to stdout: print(...) without file=, sys.stdout.write, module helpers doing so."""
     out = []
     for n in ast.walk(root):
@@ -292,8 +292,8 @@ def _stdout_writes(prog: Program, root: ast.AST):
             out.append(n)
         elif isinstance(n.func, ast.Name):
             tgt = prog.funcs.get(n.func.id)
-            if tgt is not None and tgt.cls is None and tgt.module == MAIN and tgt.name != "main":
-                if _stdout_writes(prog, tgt.node):
+            if tgt is not None and tgt.cls is None and tgt.module == MAIN and tgt.name != "main" and tgt.key not in _seen:
+                if _stdout_writes(prog, tgt.node, _seen | {tgt.key}):  # (a recursive helper is looked into once)
                     out.append(n)
     return out
 
@@ -760,5 +760,39 @@ def run(prog: Program) -> Results:
     if not good:
         res.add("R-C16-5", ("__main__", "exit status"), "nix_manipulator/__main__.py:1",
                 "__main__ does not pass main()'s return value to SystemExit/sys.exit")
+    # ---------------------------------------------------------------- R-C16-6 one input channel per sub-command, read afresh
+    from sa.effects import memoised
+    r6 = res.rule("R-C16-6", "one input option, owned by the sub-command, bound when the command line is parsed: the helper that adds "
+                  "`-f/--file` (default: the process's stdin) is applied to sub-parsers only — on the root parser the sub-parser's own "
+                  "default overwrites a FILE given before the sub-command, which is then opened and ignored — and none of main / build_parser / "
+                  "that helper is memoised (a cached parser keeps the first call's stdin object)", floor=3)
+    adders = [f for f in prog.all_functions() if f.module == "nix_manipulator/cli/parser.py" and any(
+        isinstance(c, ast.Call) and callee(c) == "add_argument" and any(isinstance(a, ast.Constant) and a.value in ("-f", "--file") for a in c.args)
+        for c in walk_no_nested(f.node))]
+    adder_names = {f.name for f in adders if f.params()}
+    bp = prog.funcs.get("build_parser")
+    if bp is not None and adder_names:
+        roots = {norm(d.targets[0]) for d in walk_no_nested(bp.node) if isinstance(d, ast.Assign) and isinstance(d.value, ast.Call)
+                 and dotted(d.value.func).endswith("ArgumentParser")}
+        for c in walk_no_nested(bp.node):
+            if isinstance(c, ast.Call) and callee(c) in adder_names and c.args:
+                r6.instances += 1
+                ok = norm(c.args[0]) not in roots
+                r6.ob(ok, {"site": bp.key, "input_option_added_to": norm(c.args[0])})
+                if not ok:
+                    res.add("R-C16-6", (bp.key, "input option on the root parser"), bp.loc(c),
+                            f"build_parser: `{norm(c)[:60]}` adds the input option to the root parser as well: argparse lets the sub-parser's "
+                            f"default (`sys.stdin`) overwrite a FILE given before the sub-command, so `nima -f broken.nix test` reads stdin "
+                            f"and the two channels no longer give the same result")
+    stdin_builders = adder_names | {"build_parser", "main"}  # the functions on the way from main() to `default=sys.stdin`
+    for f in prog.all_functions():
+        if f.module in ("nix_manipulator/cli/parser.py", MAIN) and f.name in stdin_builders:
+            r6.instances += 1
+            ok = not memoised(f)
+            r6.ob(ok, None if ok else {"site": f.key, "memoised": True})
+            if not ok:
+                res.add("R-C16-6", (f.key, "memoised CLI function"), f.loc(),
+                        f"{f.key} is memoised: the parser's `default=sys.stdin` is evaluated when the parser is built, so a second call of "
+                        f"main() in the same process reads the first call's (exhausted) stdin while `-f FILE` stays correct")
     res.tables.append("none (idioms enumerated in the rule)")
     return res
